@@ -6,6 +6,7 @@ use crate::ev::*;
 use crate::gen::*;
 use crate::refchess::*;
 use crate::runner::{Ctx, Prop};
+use crate::uci::{self, Session};
 use proptest::prelude::*;
 use serde::{Deserialize, Serialize};
 use serde_json::{json, Value};
@@ -22,8 +23,16 @@ pub enum Which {
 
 #[derive(Serialize, Deserialize, Clone, Debug)]
 pub enum PosCase {
-    /// a walk; `history` plays the moves into the game record (push_history) instead of push
-    Walk { walk: Walk, history: bool, expand: u8 },
+    /// a walk; `history` plays the moves into the game record (push_history) instead of push;
+    /// `via_binary` additionally observes the end of the walk through the real executable
+    /// (C01: `rustybait perft 2 <fen> <moves>` divide; C02/C04/C11: `position … moves …` + `show`)
+    Walk {
+        walk: Walk,
+        history: bool,
+        expand: u8,
+        #[serde(default)]
+        via_binary: bool,
+    },
     /// a single sane position given as text (enumerations, golden tables)
     Fen { fen: String },
     /// golden (FEN, hash) pair
@@ -486,6 +495,86 @@ impl PosWalk {
         Ok(())
     }
 
+    /// The same observables through the real executable
+    fn through_binary(&self, walk: &Walk, ev: &mut Ev) -> Result<(), Fail> {
+        let Some(r) = resolve_walk(walk) else { return Ok(()) };
+        let p = &r.end;
+        if p.pseudo().len() > 250 || r.moves.len() > 390 {
+            return Ok(());
+        }
+        let start_fen = r.start.fen6();
+        ev.class("observations_through_the_binary");
+        if self.which == Which::C01 {
+            // perft divide of depth 2 from the command line
+            let mut args: Vec<String> = vec!["perft".into(), "2".into(), start_fen.clone()];
+            args.extend(r.moves.iter().map(|m| m.uci()));
+            let out = std::process::Command::new(uci::ENGINE).args(&args).stdin(std::process::Stdio::null()).output().map_err(|e| Fail::new("harness", e.to_string()))?;
+            let text = String::from_utf8_lossy(&out.stdout);
+            let mut got: Vec<(String, u64)> = Vec::new();
+            let mut total: Option<u64> = None;
+            for l in text.lines() {
+                if let Some((m, c)) = l.split_once(": ") {
+                    if uci::looks_like_move(m) {
+                        if let Ok(c) = c.trim().parse::<u64>() {
+                            got.push((m.to_string(), c));
+                        }
+                    }
+                } else if let Ok(t) = l.trim().parse::<u64>() {
+                    total = Some(t);
+                }
+            }
+            let mut want: Vec<(String, u64)> = p.legal().iter().map(|&m| (m.uci(), p.make(m).legal().len() as u64)).collect();
+            want.sort();
+            got.sort();
+            let cmd = format!("rustybait perft 2 \"{}\" {}", start_fen, moves_text(&r.moves));
+            if !out.status.success() {
+                return Err(Fail::new("perft-command-fails", format!("{} : exit {:?} stderr {}", cmd, out.status.code(), String::from_utf8_lossy(&out.stderr).chars().take(300).collect::<String>())));
+            }
+            if got != want {
+                return Err(Fail::new("perft-divide-differs-from-the-rules", format!("{} : engine {:?} / rules {:?}", cmd, got, want)));
+            }
+            let sum: u64 = want.iter().map(|x| x.1).sum();
+            if total != Some(sum) {
+                return Err(Fail::new("perft-divide-differs-from-the-rules", format!("{} : total {:?} , rules {}", cmd, total, sum)));
+            }
+            return Ok(());
+        }
+        let mut sess = Session::start(&[]).map_err(|e| Fail::new("harness", e))?;
+        let cmd = format!("position fen {} moves {}", start_fen, moves_text(&r.moves));
+        sess.send(&cmd);
+        sess.send("show");
+        let Some(lines) = sess.read_until(|l| l.starts_with("   a b c") || l.starts_with("error:"), 5000) else {
+            sess.kill();
+            return Err(Fail::new("show-unanswered", cmd));
+        };
+        let Some(sh) = uci::parse_show(&lines) else {
+            sess.kill();
+            return Err(Fail::new("legal-game-refused-by-position-command", format!("{} : {:?}", cmd, lines.iter().find(|l| l.starts_with("error:")))));
+        };
+        sess.quit();
+        match self.which {
+            Which::C02 => {
+                if uci::fen4_of(&sh.fen) != p.fen4() {
+                    return Err(Fail::new("position-after-move-differs", format!("{} then show: {} / rules {}", cmd, sh.fen, p.fen4())));
+                }
+            }
+            Which::C04 => {
+                let want = format!("{:X}", self.zob.hash(p));
+                if sh.hash.trim_start_matches('0') != want.trim_start_matches('0') {
+                    return Err(Fail::new("hash-differs-from-key-file-combination", format!("{} then show: Hash {} / combined {}", cmd, sh.hash, want)));
+                }
+            }
+            Which::C11 => {
+                fen_regex_ok(&sh.fen).map_err(|e| Fail::new("export-not-well-formed", format!("{} then show: {:?}: {}", cmd, sh.fen, e)))?;
+                if uci::fen4_of(&sh.fen) != p.fen4() {
+                    return Err(Fail::new("export-describes-another-position", format!("{} then show: {:?} / rules {:?}", cmd, sh.fen, p.fen4())));
+                }
+            }
+            Which::C01 => {}
+        }
+        Ok(())
+    }
+
     fn run_fen(&self, fen: &str, ev: &mut Ev) -> Result<(), Fail> {
         let p = Pos::from_fen(fen).map_err(|e| Fail::new("harness", format!("bad case FEN {}: {}", fen, e)))?;
         if !p.sane() {
@@ -539,7 +628,7 @@ impl Prop for PosWalk {
     }
 
     fn rule(&self) -> String {
-        let common = "Cases: proptest-generated walks (start = curated sane FEN or constructed random sane position with 2-32 men, castling rights and en-passant file FIDE-style or capturable; moves = picks with kind preferences capture/promotion/castle/ep/king/rook-home/double-push/check/undo resolved against the reference model's legal list; lengths 0-397) with the oracle evaluated at every position of the walk and at every legal successor of the final position (depth 1-2); thorough adds the exhaustive K+X v K tables. evaluations = positions compared. ";
+        let common = "Cases: proptest-generated walks (start = curated sane FEN or constructed random sane position with 2-32 men, castling rights and en-passant file FIDE-style or capturable; moves = picks with kind preferences capture/promotion/castle/ep/king/rook-home/double-push/check/undo resolved against the reference model's legal list; lengths 0-397) with the oracle evaluated at every position of the walk and at every legal successor of the final position (depth 1-2); about 1 walk in 250 is also observed through the real executable (C01: `rustybait perft 2 <fen> <moves>` divide against the model's divide; C02/C04/C11: `position fen … moves …` + `show` lines); thorough adds the exhaustive K+X v K tables. evaluations = positions compared. ";
         let nt = match self.which {
             Which::C01 => "Non-trivial position: in check, double check, has pseudo-legal moves that expose the own king (pins), en-passant capture legal, a castling right present, pawn one step from promotion, or at most 4 men; distinct by (placement, side, rights, ep).",
             Which::C02 => "Non-trivial case: a (position, move) pair where the move is castling, en passant, a promotion, moves from or captures on a rook home square, or records an en-passant file; distinct by position and move.",
@@ -573,14 +662,20 @@ impl Prop for PosWalk {
             (Which::C01, Tier::Quick) => 2,
             _ => 2,
         };
-        (walk_strategy(long), any::<bool>(), 0u8..expand_max)
-            .prop_map(|(walk, history, expand)| PosCase::Walk { walk, history, expand })
+        (walk_strategy(long), any::<bool>(), 0u8..expand_max, prop::bool::weighted(0.004))
+            .prop_map(|(walk, history, expand, via_binary)| PosCase::Walk { walk, history, expand, via_binary })
             .boxed()
     }
 
     fn check(&self, _ctx: &Ctx, case: &PosCase, ev: &mut Ev) -> Result<(), Fail> {
         match case {
-            PosCase::Walk { walk, history, expand } => self.run_walk(walk, *history, *expand, ev),
+            PosCase::Walk { walk, history, expand, via_binary } => {
+                self.run_walk(walk, *history, *expand, ev)?;
+                if *via_binary {
+                    self.through_binary(walk, ev)?;
+                }
+                Ok(())
+            }
             PosCase::Fen { fen } => self.run_fen(fen, ev),
             PosCase::Golden { fen, hash } => {
                 let p = Pos::from_fen(fen).map_err(|e| Fail::new("harness", e))?;
